@@ -610,6 +610,58 @@ func (w *World) argAccess(P, bn string, ar int, impl *ssa.Function) {
 	args := impl.Params[len(impl.Params)-1]
 	maxIdx := -1
 	unguardedVar := false
+	// functions the implementation was specialised with (a closure built by a factory): bound to its free variables
+	bind := w.Facts().BuiltinBind[fmt.Sprintf("%s#%d", bn, ar)]
+	boundCallee := func(c *ssa.Call) *ssa.Function {
+		if bind == nil || staticCallee(c) != nil || c.Call.IsInvoke() {
+			return nil
+		}
+		v := c.Call.Value
+		if ld, ok := v.(*ssa.UnOp); ok {
+			v = ld.X
+		}
+		fv, ok := v.(*ssa.FreeVar)
+		if !ok {
+			return nil
+		}
+		switch b := stripConv(bind[fv]).(type) {
+		case *ssa.Function:
+			return b
+		case *ssa.MakeClosure:
+			g, _ := b.Fn.(*ssa.Function)
+			return g
+		}
+		return nil
+	}
+	// argument reads inside a bound function that is handed the argument slice
+	allInstrs(impl, func(in ssa.Instruction) {
+		c, ok := in.(*ssa.Call)
+		if !ok {
+			return
+		}
+		g := boundCallee(c)
+		if g == nil {
+			return
+		}
+		for i, a := range c.Call.Args {
+			if a != ssa.Value(args) || i >= len(g.Params) {
+				continue
+			}
+			allInstrs(g, func(in2 ssa.Instruction) {
+				ia, ok := in2.(*ssa.IndexAddr)
+				if !ok || ia.X != ssa.Value(g.Params[i]) {
+					return
+				}
+				if k, isC := constInt(ia.Index); isC {
+					if int(k) > maxIdx {
+						maxIdx = int(k)
+					}
+				} else {
+					unguardedVar = true
+				}
+			})
+		}
+	})
 	allInstrs(impl, func(in ssa.Instruction) {
 		ia, ok := in.(*ssa.IndexAddr)
 		if !ok || ia.X != ssa.Value(args) {
@@ -654,6 +706,15 @@ func (w *World) argAccess(P, bn string, ar int, impl *ssa.Function) {
 		usesCtx := false
 		allInstrs(impl, func(in ssa.Instruction) {
 			if c, isCall := in.(*ssa.Call); isCall {
+				if g := boundCallee(c); g != nil {
+					allInstrs(g, func(in2 ssa.Instruction) {
+						if c2, ok := in2.(*ssa.Call); ok {
+							if _, isR := isMethodCall(c2, "Result"); isR {
+								usesCtx = true
+							}
+						}
+					})
+				}
 				if _, isR := isMethodCall(c, "Result"); isR {
 					usesCtx = true
 				}
